@@ -10,10 +10,13 @@ import (
 	"os/exec"
 	"os/signal"
 	"path/filepath"
+	"runtime"
 	"sort"
 	"strconv"
 	"strings"
+	"sync"
 	"syscall"
+	"time"
 
 	"github.com/grafana/dskit/ring"
 )
@@ -64,40 +67,47 @@ func c09FileTokens(first, n int) ring.Tokens {
 // c09FileCases: an existing good tokens file is rewritten by a child process whose write succeeds or fails after a
 // partial write; the parent then looks at what is on disk.
 // Line: C09.file <case> <old tokens> <new tokens> <limit> <child error class> <file loads 0|1> <old|new|other> <tmp left 0|1>
-func c09FileCases(e *env, dir string) {
+func c09FileCases(dir string) func() [][]string {
 	type fc struct{ oldN, newN, limit int }
 	cases := []fc{{3, 40, 100}, {3, 60, 100}, {20, 30, 100}, {3, 5, 100}, {3, 40, 0}, {0, 40, 100}, {3, 25, 64}, {12, 100, 256}, {3, 18, 100}, {3, 19, 100}}
+	lines := make([][]string, len(cases))
+	var wg sync.WaitGroup
 	for k, c := range cases {
-		path := filepath.Join(dir, "filecase-"+itoa(k)+".tokens")
-		os.Remove(path)
-		os.Remove(path + ".tmp")
-		old := c09FileTokens(5, c.oldN)
-		if err := old.StoreToFile(path); err != nil {
-			panic(err)
-		}
-		nw := c09FileTokens(100000, c.newN)
-		out, err := exec.Command(os.Args[0], "C09.filechild", path, "100000", itoa(c.newN), itoa(c.limit)).Output()
-		class := strings.TrimSpace(string(out))
-		if err != nil && class == "" {
-			class = "child-failed"
-		}
-		loads, which := "1", "other"
-		got, lerr := ring.LoadTokensFromFile(path)
-		if lerr != nil {
-			loads = "0"
-		} else if got.Equals(append(ring.Tokens{}, old...)) && len(got) == len(old) {
-			which = "old"
-		} else if got.Equals(append(ring.Tokens{}, nw...)) && len(got) == len(nw) {
-			which = "new"
-		}
-		tmp := "0"
-		if _, err := os.Stat(path + ".tmp"); err == nil {
-			tmp = "1"
-		}
-		e.emit("C09.file", "file/k"+itoa(k), u32s(old), u32s(nw), itoa(c.limit), class, loads, which, tmp)
-		os.Remove(path)
-		os.Remove(path + ".tmp")
+		wg.Add(1)
+		go func(k int, c fc) {
+			defer wg.Done()
+			path := filepath.Join(dir, "filecase-"+itoa(k)+".tokens")
+			os.Remove(path)
+			os.Remove(path + ".tmp")
+			old := c09FileTokens(5, c.oldN)
+			if err := old.StoreToFile(path); err != nil {
+				panic(err)
+			}
+			nw := c09FileTokens(100000, c.newN)
+			out, err := exec.Command(os.Args[0], "C09.filechild", path, "100000", itoa(c.newN), itoa(c.limit)).Output()
+			class := strings.TrimSpace(string(out))
+			if err != nil && class == "" {
+				class = "child-failed"
+			}
+			loads, which := "1", "other"
+			got, lerr := ring.LoadTokensFromFile(path)
+			if lerr != nil {
+				loads = "0"
+			} else if got.Equals(append(ring.Tokens{}, old...)) && len(got) == len(old) {
+				which = "old"
+			} else if got.Equals(append(ring.Tokens{}, nw...)) && len(got) == len(nw) {
+				which = "new"
+			}
+			tmp := "0"
+			if _, err := os.Stat(path + ".tmp"); err == nil {
+				tmp = "1"
+			}
+			lines[k] = []string{"C09.file", "file/k" + itoa(k), u32s(old), u32s(nw), itoa(c.limit), class, loads, which, tmp}
+			os.Remove(path)
+			os.Remove(path + ".tmp")
+		}(k, c)
 	}
+	return func() [][]string { wg.Wait(); return lines }
 }
 
 // c09WipeObserve: the ring is lost (key deleted, or reset to an empty descriptor) while the subject is JOINING in its
@@ -169,9 +179,9 @@ type c09Scen struct {
 	subject lcfg
 	others  []lcfg
 	ring    func(r *rng, used map[uint32]bool, numTokens int) *ring.Desc // initial ring (virtual times)
-	file    string                                                     // "", "full", "short", "corrupt", "tmpgarbage", "tmpfull"
-	setup   []c09op                                                    // run without faults before the scripted part (not crash-counted)
-	script  []c09op                                                    // crash points are the CAS calls of node 0 in here
+	file    string                                                       // "", "full", "short", "corrupt", "tmpgarbage", "tmpfull"
+	setup   []c09op                                                      // run without faults before the scripted part (not crash-counted)
+	script  []c09op                                                      // crash points are the CAS calls of node 0 in here
 }
 
 func c09Neighbours(r *rng, used map[uint32]bool, n int) *ring.Desc {
@@ -576,36 +586,76 @@ func runC09(e *env) {
 		panic(err)
 	}
 	defer os.RemoveAll(dir)
+	rounds := 1
+	if !e.quick {
+		rounds = 3
+	}
+	t0 := time.Now()
+	outage := outageStart(rounds)
+	fileCases := c09FileCases(dir) // child processes, concurrent with everything below // real-time start-up outage scenarios, concurrent with everything below
 	scs := c09Scenarios()
 	variants := 4 * e.scale
-	caseNo := 0
-	// crash points: enumerated (every CAS call of every scenario, before and after the commit)
-	for si, sc := range scs {
+	// crash points: enumerated (every CAS call of every scenario, before and after the commit); the (scenario, variant)
+	// enumerations are independent and run on all cores, output in enumeration order
+	type job struct{ si, v int }
+	var jobs []job
+	for si := range scs {
 		for v := 0; v < variants; v++ {
-			for k := 0; k < 40; k++ {
-				finished := false
-				for _, mode := range []string{"cb", "ca"} {
-					if k == 0 && mode == "ca" {
-						continue
-					}
-					for try := 0; try < 5; try++ {
-						line, ok, done := c09CrashCase(e.seed, caseNo, dir, si, sc, v, k, mode)
-						if !ok {
+			jobs = append(jobs, job{si, v})
+		}
+	}
+	results := make([][]string, len(jobs))
+	next := make(chan int, len(jobs))
+	for i := range jobs {
+		next <- i
+	}
+	close(next)
+	var wg sync.WaitGroup
+	workers := runtime.NumCPU()
+	if workers > 12 {
+		workers = 12
+	}
+	for wk := 0; wk < workers; wk++ {
+		wg.Add(1)
+		go func() {
+			defer wg.Done()
+			for ji := range next {
+				si, v := jobs[ji].si, jobs[ji].v
+				sc := scs[si]
+				for k := 0; k < 40; k++ {
+					finished := false
+					for mi, mode := range []string{"cb", "ca"} {
+						if k == 0 && mode == "ca" {
 							continue
 						}
-						if done {
-							finished = true
-						} else {
-							e.emit(strings.Split(line, "\t")...)
+						caseNo := si*100000 + v*1000 + k*2 + mi // unique: names the tokens files
+						for try := 0; try < 5; try++ {
+							line, ok, done := c09CrashCase(e.seed, caseNo, dir, si, sc, v, k, mode)
+							if !ok {
+								continue
+							}
+							if done {
+								finished = true
+							} else {
+								results[ji] = append(results[ji], line)
+							}
+							break
 						}
+					}
+					if finished {
 						break
 					}
-					caseNo++
-				}
-				if finished {
-					break
 				}
 			}
+		}()
+	}
+	wg.Wait()
+	if os.Getenv("VERIF_TIMING") != "" {
+		println("crash enumeration done", time.Since(t0).String())
+	}
+	for _, ls := range results {
+		for _, l := range ls {
+			e.emit(strings.Split(l, "\t")...)
 		}
 	}
 	nf := 1500 * e.scale
@@ -615,5 +665,16 @@ func runC09(e *env) {
 	c08Parallel(e, nf, "c09f", c09FaultCase)
 	c08Parallel(e, 80*e.scale, "c09t", c09TargetedFault)
 	c08Parallel(e, 96*e.scale, "c09w", c09WipeObserve)
-	c09FileCases(e, dir)
+	if os.Getenv("VERIF_TIMING") != "" {
+		println("fault streams done", time.Since(t0).String())
+	}
+	for _, l := range fileCases() {
+		e.emit(l...)
+	}
+	if os.Getenv("VERIF_TIMING") != "" {
+		println("file cases done", time.Since(t0).String())
+	}
+	for _, l := range outage() {
+		e.emit(strings.Split(l, "\t")...)
+	}
 }
